@@ -39,7 +39,8 @@ Definition finish (O : oracles) (o : opts) (s : sess) (exc : bool) : fin :=
    an ALTERED cookie: a text that differs from the cookie most recently set (an edit of it, or the same
    payload signed with another secret / salt) -- the harness only uses SAltered for texts that differ *)
 Inductive src := SNone | SLast | SText (c : text) | SAltered (c : text).
-Record req := { rsrc : src; rt : Z; rops : list (op * Z); rexc : bool }.
+(* rcb: how many OTHER response callbacks the application registers before / after it uses the session *)
+Record req := { rsrc : src; rt : Z; rops : list (op * Z); rexc : bool; rcb : nat * nat }.
 
 Inductive robs :=
 | ObsExc                      (* the constructor raised *)
@@ -102,11 +103,34 @@ Fixpoint grun_ops (o : opts) (l : list (op * Z)) (s : sess) : sess * list res :=
 (* the response callback registered by changed(): runs iff the session is dirty *)
 Definition gfinish (O : oracles) (o : opts) (s : sess) (exc : bool) : fin :=
   if dirty s then gen_set_cookie O o exc s else FNone.
+(* the same through the REQUEST's callback queue (regenerated: gen_add_cb = add_response_callback,
+   gen_process_cbs = _process_response_callbacks): the application's other callbacks registered before / after the
+   session was used, the session's callback between them iff changed() registered it (dirty) *)
+Fixpoint add_others (n : nat) (q : list cb) : list cb :=
+  match n with O => q | S n' => add_others n' (gen_add_cb q CbOther) end.
+Definition req_queue (s : sess) (nb na : nat) : list cb :=
+  let q := add_others nb [] in
+  add_others na (if dirty s then gen_add_cb q CbSession else q).
+Definition call_cb (O : oracles) (o : opts) (s : sess) (exc : bool) (c : cb) (f : fin) : fin :=
+  match c with CbSession => gen_set_cookie O o exc s | CbOther => f end.
+Definition gfinish_q (O : oracles) (o : opts) (s : sess) (exc : bool) (n : nat * nat) : fin :=
+  gen_process_cbs (call_cb O o s exc) (req_queue s (fst n) (snd n)) FNone.
+(* the router's pipeline around it (regenerated: gen_invoke_request = Router.invoke_request): the view's response,
+   then the callbacks if there are any *)
+Definition gfinish_r (O : oracles) (o : opts) (s : sess) (exc : bool) (n : nat * nat) : fin :=
+  let q := req_queue s (fst n) (snd n) in
+  match gen_invoke_request (Some FNone) (negb (match q with [] => true | _ => false end))
+                           (gen_process_cbs (call_cb O o s exc) q) with
+  | Some f => f
+  | None => FNone
+  end.
+(* request.session: the registered factory applied to the request (gen_request_session) *)
 Definition grun_req (O : oracles) (o : opts) (last : option text) (r : req) : robs :=
-  match gen_init O o (present last (rsrc r)) (rt r) with
-  | IRaise => ObsExc
-  | IUnm => ObsUnm
-  | IOk s0 => let '(s1, rs) := grun_ops o (rops r) s0 in Obs s0 rs s1 (gfinish O o s1 (rexc r))
+  match gen_request_session (Some (fun _ : unit => gen_init O o (present last (rsrc r)) (rt r))) with
+  | None => ObsExc
+  | Some IRaise => ObsExc
+  | Some IUnm => ObsUnm
+  | Some (IOk s0) => let '(s1, rs) := grun_ops o (rops r) s0 in Obs s0 rs s1 (gfinish_r O o s1 (rexc r) (rcb r))
   end.
 Fixpoint grun_chain (O : oracles) (o : opts) (last : option text) (l : list req) : list robs :=
   match l with
@@ -155,6 +179,39 @@ Definition spec_factory (a : fargs) : facres :=
 (* the max-age attribute the cookies will carry *)
 Definition gfactory_max_age (a : fargs) : option (option Z) :=
   match gen_config (gen_signed_factory a) with CfgOk c => Some (c_max_age c) | _ => None end.
+
+(* a CALL of the factory: arguments bound as the signature in the source says (gen_sig, gen_defaults: regenerated) *)
+Definition gfactory_call (c : fcall) : facres :=
+  match bind_call gen_sig gen_defaults c with
+  | None => FacRaise
+  | Some l => match fargs_of l with Some a => gfactory a | None => FacUnm end
+  end.
+Definition gcall_max_age (c : fcall) : option (option Z) :=
+  match bind_call gen_sig gen_defaults c with
+  | Some l => match fargs_of l with Some a => gfactory_max_age a | None => None end
+  | None => None
+  end.
+(* the attributes the cookies will carry (raw option values; WebOb renders them) *)
+Definition gcall_attrs (c : fcall) : option attrs :=
+  match bind_call gen_sig gen_defaults c with
+  | Some l => match fargs_of l with
+              | Some a => match gen_config (gen_signed_factory a) with CfgOk g => Some (c_attrs g) | _ => None end
+              | None => None
+              end
+  | None => None
+  end.
+(* documented: each attribute is the value the caller gave for it, else the documented default *)
+Definition doc_attrs (c : fcall) : option attrs :=
+  match doc_bind c with
+  | Some l => match fargs_of l with Some a => Some (fa_attrs a) | None => None end
+  | None => None
+  end.
+(* the documented reading of the same call *)
+Definition spec_factory_call (c : fcall) : facres :=
+  match doc_bind c with
+  | None => FacRaise
+  | Some l => match fargs_of l with Some a => spec_factory a | None => FacUnm end
+  end.
 
 (* ================================================================== declarative specification *)
 (* The property speaks about a store: what the cookie most recently set holds.  No cookie
@@ -728,9 +785,12 @@ Definition get_src (v : val) : option src :=
 
 Definition get_req (v : val) : option req :=
   match v with
+  | VL [s; VI t; ops; VI e; VI nb; VI na] =>
+      olet s := get_src s in olet ops := get_list_of get_opt_at ops in
+      Some {| rsrc := s; rt := t; rops := ops; rexc := negb (Z.eqb e 0); rcb := (Z.to_nat nb, Z.to_nat na) |}
   | VL [s; VI t; ops; VI e] =>
       olet s := get_src s in olet ops := get_list_of get_opt_at ops in
-      Some {| rsrc := s; rt := t; rops := ops; rexc := negb (Z.eqb e 0) |}
+      Some {| rsrc := s; rt := t; rops := ops; rexc := negb (Z.eqb e 0); rcb := (0%nat, 0%nat) |}
   | _ => None
   end.
 
@@ -743,13 +803,11 @@ Definition get_cfgv (v : val) : option cfgv :=
   | VL [VI 3%Z; VT s] => Some (CStr s)
   | _ => None
   end.
-(* the arguments given to SignedCookieSessionFactory, as given (not converted) *)
-Definition get_fargs (v : val) : option fargs :=
+(* a call of SignedCookieSessionFactory: [npos; the 14 values in documented order, [] = not given] *)
+Definition get_fcall (v : val) : option fcall :=
   match v with
-  | VL [VT sec; salt; m; t; r; e] =>
-      olet salt := get_opt get_text salt in olet m := get_cfgv m in olet t := get_cfgv t in
-      olet r := get_cfgv r in olet e := get_cfgv e in
-      Some {| fa_secret := sec; fa_salt := salt; fa_max_age := m; fa_timeout := t; fa_reissue := r; fa_soe := e |}
+  | VL [VI n; vs] =>
+      olet vs := get_list_of (get_opt get_cfgv) vs in Some {| c_npos := Z.to_nat n; c_vals := vs |}
   | _ => None
   end.
 
@@ -797,8 +855,19 @@ Definition put_sobs (ob : option sobs) : val :=
   end.
 
 (* case = [[ds; macs; unb64s; desers]; factory arguments; requests]
-   answer = [observations of the program regenerated from the source; spec observations; max-age attribute]
+   answer = [observations of the program regenerated from the source; spec observations; max-age attribute;
+             the other cookie attributes]
             [1; spec?] the factory call raises   [2] outside the modelled domain *)
+Definition put_cfgv (v : cfgv) : val :=
+  match v with
+  | CNone => VL [] | CInt z => VL [VI 0; VI z] | CBool b => VL [VI 1; vbool b] | CFlt q => VL [VI 2; VI q]
+  | CStr s => VL [VI 3; VT s]
+  end.
+Definition put_attrs (x : option attrs) : val :=
+  match x with
+  | Some a => VL (map put_cfgv [a_name a; a_path a; a_domain a; a_secure a; a_httponly a; a_samesite a])
+  | None => VL []
+  end.
 Definition put_optZ (x : option Z) : val := match x with Some z => VL [VI z] | None => VL [] end.
 Definition run_C10 (v : val) : val :=
   ret_or_bad (
@@ -807,14 +876,14 @@ Definition run_C10 (v : val) : val :=
         olet macs := get_list_of get_mac_row macs in
         olet unbs := get_list_of get_unb_row unbs in
         olet dess := get_list_of get_des_row dess in
-        olet a := get_fargs a in
+        olet a := get_fcall a in
         olet rs := get_list_of get_req rs in
         let O := table_oracles (Z.to_nat n) macs unbs dess in
-        match gfactory a with
+        match gfactory_call a with
         | FacRaise =>
             (* the factory call raises; if the documented reading of the options says it should not, the
                specification of the chain is still reported (the judge then sees a deviation) *)
-            Some (VL [VI 1; match spec_factory a with
+            Some (VL [VI 1; match spec_factory_call a with
                             | FacOk o' => VL [VL (map put_sobs (spec_chain O o' None true rs))]
                             | _ => VL []
                             end])
@@ -823,11 +892,12 @@ Definition run_C10 (v : val) : val :=
             (* the specification reads the options DECLARATIVELY (spec_factory), never through the regenerated
                factory layer: a changed conversion must show as a deviation, not move the specification along *)
             Some (VL [VL (map put_robs (grun_chain O o None rs));
-                      match spec_factory a with
+                      match spec_factory_call a with
                       | FacOk o' => VL (map put_sobs (spec_chain O o' None true rs))
                       | _ => VL (map (fun _ => VL []) rs)
                       end;
-                      match gfactory_max_age a with Some m => put_optZ m | None => VL [] end])
+                      match gcall_max_age a with Some m => put_optZ m | None => VL [] end;
+                      put_attrs (gcall_attrs a)])
         end
     | _ => None
     end).
